@@ -296,7 +296,11 @@ class Repo:
         """private class-level literal constants, read as self._X"""
         if ci is None:
             return {}
-        out = {}
+        if not hasattr(self, '_cc_cache'):
+            self._cc_cache = {}
+        if ci.fq in self._cc_cache:
+            return self._cc_cache[ci.fq]
+        out = self._cc_cache.setdefault(ci.fq, {})
         for c in reversed(self.mro(ci)):
             for k, v in c.class_attrs.items():
                 vv = v.operand if isinstance(v, ast.UnaryOp) and isinstance(v.op, (ast.USub, ast.UAdd)) else v
@@ -304,11 +308,8 @@ class Repo:
                         isinstance(vv.value, (int, float, str)) and not isinstance(vv.value, bool):
                     out[k] = v
         # not if some method assigns self._X
-        for c in self.mro(ci):
-            for m in c.methods.values():
-                for n in ast.walk(m.raw_node):
-                    if isinstance(n, ast.Attribute) and isinstance(n.ctx, ast.Store) and n.attr in out:
-                        out.pop(n.attr, None)
+        for k in self._stored_attr_names():
+            out.pop(k, None)
         return out
 
     def websplit(self, fi):
@@ -329,6 +330,17 @@ class Repo:
                 self._ws_cache[fi.fq] = fi
         return self._ws_cache[fi.fq]
 
+    def _stored_attr_names(self):
+        """every attribute name that some statement of the package stores to or deletes (any receiver)"""
+        if not hasattr(self, '_stored_attrs'):
+            out = set()
+            for m in self.modules.values():
+                for n in ast.walk(m.tree):
+                    if isinstance(n, ast.Attribute) and isinstance(n.ctx, (ast.Store, ast.Del)):
+                        out.add(n.attr)
+            self._stored_attrs = out
+        return self._stored_attrs
+
     def _cls_seqs(self, ci):
         """class-level tuple / list displays (through the MRO) that no method stores to: readable as self.X"""
         if ci is None:
@@ -343,13 +355,8 @@ class Repo:
                         out[k] = v
                     else:
                         out.pop(k, None)
-            for m in self.modules.values():
-                for n in ast.walk(m.tree):
-                    if isinstance(n, ast.Attribute) and isinstance(n.ctx, (ast.Store, ast.Del)) and n.attr in out:
-                        out.pop(n.attr, None)
-                    elif isinstance(n, ast.Call) and isinstance(n.func, ast.Name) and n.func.id in ('setattr', 'delattr'):
-                        if len(n.args) >= 2 and not isinstance(n.args[1], ast.Constant):
-                            pass       # a computed name: handled where it is unrolled; class constants start with no store
+            for k in self._stored_attr_names():
+                out.pop(k, None)
             out['#classes'] = tuple(c.name for c in self.mro(ci))
             self._cs_cache[ci.fq] = out
         return self._cs_cache[ci.fq]
